@@ -6,7 +6,7 @@ import verif
 from verif import Infra, log
 
 TRACE_CFG = """SPECIFICATION TraceSpec
-CONSTANTS MaxBad = 4000
+CONSTANTS MaxBad = 20000
 Mode = "%s"
 CHECK_DEADLOCK FALSE
 POSTCONDITION Post
@@ -24,12 +24,12 @@ def design(ctx):
     ctx.design("JsonPathLaws", cfg, workers=4 if ctx.quick else 8, coverage=not ctx.quick, heap="6g", timeout=1200)
 
 
-def gen_cases(ctx, nrand, nodesc_last=False, full=None):
+def gen_cases(ctx, nrand, nodesc_last=False, full=None, lite=False):
     jb = ctx.build("jpath")
     out = os.path.join(ctx.scratch, "cases.ndjson")
     full = (not ctx.quick) if full is None else full
     with open(out, "wb") as f:
-        ctx.run([jb, "matrix"] + (["-full"] if full else []), stdout=f)
+        ctx.run([jb, "matrix"] + (["-full"] if full else ["-lite"] if lite else []), stdout=f)
         ctx.run([jb, "random", "-n", str(nrand)] + (["-nodesc-last"] if nodesc_last else []), stdout=f)
     return out
 
@@ -59,7 +59,7 @@ def locus_str(loc, as_):
     b = loc["bound"]
     if isinstance(b, str):
         b = [b]
-    return "%s/%s/%s/%s/%s" % (loc["frag"], loc["pos"], loc["cont"], ",".join(b), rep_class(as_))
+    return "%s/%s/%s/%s/%s/%s" % (loc["frag"], loc["pos"], loc["cont"], loc["pre"], ",".join(b), rep_class(as_))
 
 
 def exec_cases(ctx, cases, mode):
@@ -78,6 +78,26 @@ def exec_cases(ctx, cases, mode):
         return trace, (json.loads(line[0][5:]) if line else {})
     if p.returncode != 0:
         raise Infra("jpath exec failed: " + p.stderr.decode(errors="replace")[-2000:])
+    if mode == "c11":
+        # slices with step 0 on reflect slices/arrays: Locate does not return (finding C11-1), so the batch run skips those
+        # representations for such paths and a sample of them is run one case per process under a 2 s / 400 MB watchdog
+        zero = []
+        with open(cases, "rb") as f:
+            for line in f:
+                if b'"st":0,"sta":false' in line:
+                    zero.append(line)
+        k = 6 if ctx.quick else 24
+        step = max(1, len(zero) // k)
+        with open(trace, "ab") as fo:
+            for j, line in enumerate(zero[::step][:k]):
+                q = ctx.run([jb, "exec", "-set", "c11", "-one", ("tslice", "array")[j % 2]], stdin=None, timeout=60, check=False,
+                            env=None) if False else None
+                import subprocess
+                q = subprocess.run([jb, "exec", "-set", "c11", "-one", ("tslice", "array")[j % 2]], input=line,
+                                   capture_output=True, timeout=120, env=ctx.goenv())
+                if q.returncode != 0 or not q.stdout.strip():
+                    raise Infra("isolated jpath run failed: " + q.stderr.decode(errors="replace")[-1000:])
+                fo.write(q.stdout)
     return trace, None
 
 
@@ -93,8 +113,14 @@ def judge_paths(ctx, cases, mode, chunk=6000, shrink=True):
     recs, res = judge_once(ctx, cases, mode, chunk)
     if not shrink:
         return recs, res
+    known = verif.load_known()["known"]
+    kset = {(k["property"], k["api"], k["kind"], k["locus"]): k for k in known}
+
+    def is_known(r):
+        return verif.known_match(kset, (ctx.prop, r["api"], r["kind"], r["locus"]))
     for rnd in range(4):
-        todo = [r for r in recs if r["case"] and r["case"].get("src") != "matrix" and not r.get("_min")]
+        # deviations already matching a known finding need no stable locus; only the unknown ones are shrunk
+        todo = [r for r in recs if r["case"] and r["case"].get("src") != "matrix" and not r.get("_min") and not is_known(r)]
         if not todo:
             break
         todo = todo[:400]
@@ -153,9 +179,18 @@ def judge_once(ctx, cases, mode, chunk=6000, count=True):
         if lines is None:
             lines = open(trace, "rb").readlines()
         case = json.loads(lines[b["i"] - 1])
-        recs.append({"api": API.get(b["ev"], b["ev"]), "kind": b["kind"], "locus": locus_str(b["loc"], b["as"]),
-                     "witness": {"path": case.get("ps"), "data": compact(case["data"])},
-                     "case": strip_case(case), "detail": {"as": b["as"], "m": b.get("m") or None}})
+        # a deviation shared by simple and gen data is one record ("all"); otherwise one record per representation,
+        # so that the locus does not depend on which representations happen to be buildable for the tree
+        reps = sorted({a.split("/")[0] for a in b["as"]})
+        classes = [rep_class(b["as"])] if ("simple" in reps and "gen" in reps) or "probe" in reps else \
+            [rep_class([a for a in b["as"] if a.split("/")[0] == r]) for r in reps]
+        for rc in classes:
+            bd = b["loc"]["bound"]
+            bd = [bd] if isinstance(bd, str) else bd
+            locus = "%s/%s/%s/%s/%s/%s" % (b["loc"]["frag"], b["loc"]["pos"], b["loc"]["cont"], b["loc"]["pre"], ",".join(bd), rc)
+            recs.append({"api": API.get(b["ev"], b["ev"]), "kind": b["kind"], "locus": locus,
+                         "witness": {"path": case.get("ps"), "data": compact(case["data"])},
+                         "case": strip_case(case), "detail": {"as": b["as"], "m": b.get("m") or None}})
     return recs, res
 
 
